@@ -35,6 +35,7 @@ class Tracked:
     reentrant = False
     log = None
     name = "lock"
+    after_release = None  # optional callable(thread id, remaining depth), run right after the lock was given up (C18 schedule R)
 
     def __init__(self):
         self._inner = _real_RLock() if self.reentrant else _real_Lock()
@@ -126,6 +127,9 @@ class Tracked:
         if self.log is not None:
             self.log.add("released", threading.get_ident(), self.name, d)
         self._inner.release()
+        cb = self.after_release
+        if cb is not None:
+            cb(threading.get_ident(), d)
 
     # -- protocol used by threading.Condition(lock).wait(): gives the lock up completely and takes it back afterwards --
     def _release_save(self):
